@@ -170,8 +170,13 @@ def snapshot_file(path):
         for typ, name, tbl, sql in master:
             if typ == 'table' and not name.startswith('sqlite_'):
                 snap['tables'][name] = table_snapshot(con, name)
-        snap['fk_check'] = [tuple(r) for r in
-                            con.execute('PRAGMA foreign_key_check')]
+        try:
+            snap['fk_check'] = [tuple(r) for r in
+                                con.execute('PRAGMA foreign_key_check')]
+        except sqlite3.OperationalError as e:
+            # "foreign key mismatch": a REFERENCES clause names a column
+            # the parent table does not have
+            snap['fk_check'] = [('error', str(e))]
         snap['integrity'] = [r[0] for r in
                              con.execute('PRAGMA integrity_check')]
         for t in BOOK:
